@@ -194,6 +194,20 @@ def run_case(p, drv):
         if ((mix - sep).abs() > tol(K)).any():
             fail('C13:not-affine', f'decode(l*a+(1-l)*b) differs from l*decode(a)+(1-l)*decode(b) by {(mix - sep).abs().max().item()!r}')
 
+    # score tensors of other dtypes (integer zeros, half precisions, float64): the decoder works in the dtype of its own
+    # matrices, so the result is the one obtained from the same values given as float32
+    # (prevalence mode only: the zero_one decoder has no matrices and legitimately stays in the dtype of its input)
+    for dt in ((torch.int64, torch.float16, torch.bfloat16, torch.float64) if mode == 'prevalence' else ()):
+        try:
+            Xs = torch.zeros(3, max(width, 1), dtype=dt) if dt == torch.int64 else X[:8].to(dt)
+            Pa = conv.numerical_to_probas(Xs)
+            Pb = conv.numerical_to_probas(Xs.to(torch.float32))
+            if Pa.dtype != Pb.dtype or tuple(Pa.shape) != tuple(Pb.shape) or not torch.allclose(Pa.double(), Pb.double(), rtol=0, atol=1e-7):
+                fail('C13:invalid-proba', f'scores of dtype {dt}: decoded {Pa[0].tolist()} ({Pa.dtype}), the same values as float32 decode to {Pb[0].tolist()} ({Pb.dtype})')
+                break
+        except Exception as e:  # noqa: BLE001
+            fail(f'C13:raises:{type(e).__name__}', f'scores of dtype {dt}: {e}')
+            break
     if mode == 'zero_one' and K == 2:
         # (a) binary scores in the two-column layout (what the leaves return when binary targets were given as float
         #     one-hot columns): decoded like any K-column zero_one score - clamp, normalise - to an (N, 2) row
